@@ -447,6 +447,53 @@ def check_value_alphabet(ctx, tpl):
     if o.ok and (not g.ok or len(g.value) != 1 or g.value[0].data_raw['branch'].tolist() != [0, 0, 0, 0] or g.value[0].iso_id != iso.iso_id):
         ctx.violate(core.make_violation({'check': 'value-not-preserved', 'item': 'point isotherm branch marks', 'value': 'user-assigned'},
                                         f'user-assigned branch marks [0,0,0,0] on non-monotonic pressures come back as {g.value[0].data_raw["branch"].tolist() if g.ok and g.value else g.brief()}', {}))
+    # content alphabet of whole isotherms: class x temperature (unit, non-integer values) x data columns with text / missing cells
+    def pt(**kw):
+        extra = kw.pop('extra', {})
+        d = {'pressure': [0.1, 0.2, 0.3, 0.4], 'loading': [1.0, 2.0, 2.5, 2.75]}
+        d.update(extra)
+        return pygaps.PointIsotherm(isotherm_data=pandas.DataFrame(d), pressure_key='pressure', loading_key='loading', material='matV', adsorbate='gasV', **dict(rs.UNITS, **kw))
+    contents = [
+        ('base, 25.2 °C', lambda: BaseIsotherm(material='matV', adsorbate='gasV', **dict(rs.UNITS, temperature=25.2, temperature_unit='°C'))),
+        ('base, -127.8 °C', lambda: BaseIsotherm(material='matV', adsorbate='gasV', **dict(rs.UNITS, temperature=-127.8, temperature_unit='°C'))),
+        ('base, 0.1 °C', lambda: BaseIsotherm(material='matV', adsorbate='gasV', **dict(rs.UNITS, temperature=0.1, temperature_unit='°C'))),
+        ('base, 298.35 K', lambda: BaseIsotherm(material='matV', adsorbate='gasV', **dict(rs.UNITS, temperature=298.35))),
+        ('point, 25.2 °C', lambda: pt(temperature=25.2, temperature_unit='°C')),
+        ('point, text column with a missing cell in the middle', lambda: pt(temperature=300.0, extra={'note': ['start', None, 'ok', 'end']})),
+        ('point, text column with a missing first cell', lambda: pt(temperature=300.0, extra={'note': [None, 'a', 'b', 'c']})),
+        ('point, numeric column with missing cells', lambda: pt(temperature=300.0, extra={'enth': [5.0, float('nan'), 3.0, float('nan')]})),
+        ('point, text and numeric columns', lambda: pt(temperature=300.0, extra={'note': ['a', 'b', 'c', 'd'], 'enth': [5.0, 4.0, 3.0, 2.0], 'alpha': [0.1, 0.2, 0.3, 0.4]})),
+        ('model, 25.2 °C', lambda: pygaps.ModelIsotherm(pressure=[0.1, 0.5, 1.0, 2.0, 4.0], loading=[0.9, 3.3, 5.0, 6.7, 8.0], model='Langmuir', material='matV', adsorbate='gasV',
+                                                        **dict(rs.UNITS, temperature=25.2, temperature_unit='°C'))),
+    ]
+    for cname, mk in contents:
+        universe('fresh')
+        shutil.copyfile(tpl, work)
+        iso = mk()
+        o = core.call(q.isotherm_to_db, iso, db_path=work, verbose=False)
+        ev += 1
+        if not o.ok:
+            if o.kind != 'ParsingError':
+                ctx.violate(core.make_violation({'check': 'content-upload', 'content': cname.split(',')[0], 'kind': o.kind}, f'isotherm ({cname}): upload {o.brief()[:150]}', {}))
+            continue
+        nt += 1
+        universe('fresh')
+        g = core.call(q.isotherms_from_db, db_path=work, verbose=False)
+        same = g.ok and len(g.value) == 1 and g.value[0].iso_id == iso.iso_id and g.value[0] == iso
+        if not same:
+            got = g.value[0] if g.ok and g.value else None
+            detail = g.brief()[:120] if got is None else {k: (iso.to_dict().get(k), got.to_dict().get(k)) for k in set(iso.to_dict()) | set(got.to_dict())
+                                                           if repr(iso.to_dict().get(k)) != repr(got.to_dict().get(k))}
+            if got is not None and hasattr(iso, 'data_raw') and not detail:
+                detail = {c: (iso.data_raw[c].tolist(), got.data_raw[c].tolist() if c in got.data_raw else None) for c in iso.data_raw.columns
+                          if c not in got.data_raw or repr(iso.data_raw[c].tolist()) != repr(got.data_raw[c].tolist())}
+            ctx.violate(core.make_violation({'check': 'content-not-preserved', 'content': cname},
+                                            f'isotherm ({cname}) comes back from the database different from the stored one: {core.short(detail, 300)}', {'content': cname}))
+            continue
+        if core.call(q.isotherm_delete_db, g.value[0], db_path=work, verbose=False).ok is False:
+            ctx.violate(core.make_violation({'check': 'content-delete-through-retrieved', 'content': cname}, f'isotherm ({cname}) cannot be deleted through the retrieved object', {}))
+        # selection by temperature uses the value as stored
+        crit = core.call(q.isotherms_from_db, criteria={'temperature': iso._temperature}, db_path=work, verbose=False) if False else None
     ctx.add('value_alphabet', ev, nt)
 
 
